@@ -391,7 +391,7 @@ func knownNil(v ssa.Value, b *ssa.BasicBlock, wantNil bool) bool {
 		if !ok {
 			continue
 		}
-		if Origin(cv) != ov && cv != v {
+		if Origin(cv) != ov && cv != v && !sameLoad(cv, v) {
 			continue
 		}
 		// which successor of id leads (exclusively) to d?
@@ -455,4 +455,22 @@ func InstrPos(ins ssa.Instruction) token.Pos {
 		return fn.Pos()
 	}
 	return token.NoPos
+}
+
+
+// sameLoad: two loads of the same field/element address expression (equal structural
+// signature); used for the `if x.f != nil { return x.f }` idiom where the compiler emits
+// two loads. Assumes no intervening write, which holds for the guard/return idiom.
+func sameLoad(a, b ssa.Value) bool {
+	ua, ok1 := a.(*ssa.UnOp)
+	ub, ok2 := b.(*ssa.UnOp)
+	if !ok1 || !ok2 || ua.Op != token.MUL || ub.Op != token.MUL {
+		return false
+	}
+	switch ua.X.(type) {
+	case *ssa.FieldAddr, *ssa.IndexAddr:
+	default:
+		return false
+	}
+	return Sig(ua.X) == Sig(ub.X)
 }
